@@ -64,6 +64,29 @@ type File struct {
 	Name  kit.BStr `json:"name"`
 	Chunk kit.BStr `json:"chunk,omitempty"`
 	Len   int      `json:"len"`
+	// Seek: the source handed to the client also implements io.Seeker (as an *os.File does); Pre bytes in front
+	// of the content were consumed by the caller before the source was handed over.
+	Seek bool `json:"seek,omitempty"`
+	Pre  int  `json:"pre,omitempty"`
+}
+
+// seekSource is an upload source that can be repositioned.
+type seekSource struct {
+	*bytes.Reader
+	name string
+}
+
+func (s seekSource) Name() string { return s.name }
+func (s seekSource) Close() error { return nil }
+
+func (f File) source() runtime.NamedReadCloser {
+	if !f.Seek {
+		return runtime.NamedReader(string(f.Name), bytes.NewReader(f.content()))
+	}
+	pre := bytes.Repeat([]byte("PREAMBLE"), f.Pre/8+1)[:f.Pre]
+	r := bytes.NewReader(append(pre, f.content()...))
+	_, _ = r.Seek(int64(f.Pre), io.SeekStart)
+	return seekSource{r, string(f.Name)}
 }
 
 func (f File) content() []byte {
@@ -580,7 +603,7 @@ func submit(rt *client.Runtime, w *wire, oi int, op Op, call *Call, o *obs, wher
 			}
 		}
 		for i, f := range op.FileFields {
-			if err := req.SetFileParam(f, runtime.NamedReader(string(call.Files[i].Name), bytes.NewReader(call.Files[i].content()))); err != nil {
+			if err := req.SetFileParam(f, call.Files[i].source()); err != nil {
 				return err
 			}
 		}
